@@ -18,7 +18,7 @@ DEMOPKG=$(python3 -c "import json;print(json.load(open('$SEED/meta.json')).get('
 if [ -z "$DEMOPKG" ]; then DEMOPKG=$(grep -o '^package [a-z_]*' $DEMO | head -1 | awk '{print $2}'); fi
 case $DEMOPKG in lib) DIR=lib;; fsm) DIR=fsm;; store) DIR=store;; bft) DIR=bft;; controller) DIR=controller;; p2p) DIR=p2p;; crypto) DIR=lib/crypto;; *) DIR=$DEMOPKG;; esac
 [ -n "${DEMO_DIR:-}" ] && DIR=$DEMO_DIR
-RUN=$(grep -o 'func Test[A-Za-z0-9_]*' $DEMO | head -1 | awk '{print $2}')
+RUN=$(grep -o 'func Test[A-Za-z0-9_]*' $DEMO | awk '{print $2}' | paste -sd'|')
 echo "== demo $DEMO in ./$DIR run $RUN" >>$LOG
 cp $DEMO $DIR/zz_seed_demo_test.go
 echo "== WITHOUT patch: demo must pass" >>$LOG
